@@ -39,6 +39,8 @@ pub struct ClientResult {
     pub op: String,
     /// Ok(version committed) or the error text
     pub result: Result<u64, String>,
+    /// content digest of the committed version as the writer's own handle shows it (C10 mode)
+    pub digest: Option<u64>,
 }
 
 #[derive(Clone, Debug)]
@@ -257,25 +259,28 @@ impl WOp {
     }
 }
 
-async fn run_wop(op: WOp, mut ds: Dataset, params: WriteParams) -> Result<u64, String> {
-    match op {
-        WOp::Append(b) => {
-            let d = InsertBuilder::new(Arc::new(ds))
-                .with_params(&params)
-                .execute(vec![b])
-                .await
-                .map_err(|e| e.to_string())?;
-            Ok(d.manifest().version)
-        }
+async fn run_wop(op: WOp, mut ds: Dataset, params: WriteParams, want_digest: bool) -> Result<(u64, Option<u64>), String> {
+    let out = match op {
+        WOp::Append(b) => InsertBuilder::new(Arc::new(ds))
+            .with_params(&params)
+            .execute(vec![b])
+            .await
+            .map_err(|e| e.to_string())?,
         WOp::Delete(p) => {
             ds.delete(&p).await.map_err(|e| e.to_string())?;
-            Ok(ds.manifest().version)
+            ds
         }
         WOp::Config(k, v) => {
             ds.update_config([(k, Some(v))]).await.map_err(|e| e.to_string())?;
-            Ok(ds.manifest().version)
+            ds
         }
-    }
+    };
+    let digest = if want_digest {
+        version_obs(&out).await.ok().map(|o| o.digest())
+    } else {
+        None
+    };
+    Ok((out.manifest().version, digest))
 }
 
 fn create_fault_plan(handler: HandlerKind, fault: Fault) -> FaultPlan {
@@ -291,21 +296,41 @@ fn create_fault_plan(handler: HandlerKind, fault: Fault) -> FaultPlan {
     }
 }
 
-struct CaseOut {
-    verdicts: Vec<Verdict>,
-    witness: serde_json::Value,
-    contended: usize,
-    ihash: u64,
-    events: usize,
-    released: usize,
-    nondet: u64,
-    watchdog: bool,
-    stats: BTreeMap<&'static str, u64>,
-    sample: serde_json::Value,
+pub struct CaseOut {
+    pub verdicts: Vec<Verdict>,
+    pub witness: serde_json::Value,
+    pub contended: usize,
+    pub ihash: u64,
+    pub events: usize,
+    pub released: usize,
+    pub nondet: u64,
+    pub watchdog: bool,
+    pub stats: BTreeMap<&'static str, u64>,
+    pub sample: serde_json::Value,
+    pub wall_ms: u64,
+    /// C10 mode only: everything the quiescence checks need
+    pub env: Option<Env>,
+    pub clients: Vec<ClientResult>,
+    pub samples: Vec<ReaderSample>,
+    pub faults: Vec<String>,
 }
 
-/// One gated race.
-async fn race(seed: u64, idx: u64, handler: HandlerKind) -> Result<CaseOut, String> {
+/// One gated race (C02 mode).
+pub async fn race(seed: u64, idx: u64, handler: HandlerKind, max_secs: u64) -> Result<CaseOut, String> {
+    race_cfg(seed, idx, handler, false, max_secs).await
+}
+
+/// Seconds a race started now may take: until the end of the budget + 20 s grace, within 8..=90.
+pub fn race_secs(report: &Report) -> u64 {
+    let left = report.budget_s() as f64 + 20.0 - report.elapsed_s();
+    (left.max(8.0) as u64).min(90)
+}
+
+/// One gated race. `c10`: external-store protocol mode — exactly two writers + a reader, a fault
+/// on (almost) every writer drawn from all five protocol steps, crash and transient variants,
+/// optional stale `get_latest_version`; the environment is handed back for the quiescence checks.
+pub async fn race_cfg(seed: u64, idx: u64, handler: HandlerKind, c10: bool, max_secs: u64) -> Result<CaseOut, String> {
+    let t_start = std::time::Instant::now();
     let mut rng = Rng::for_case(seed, idx);
     let mut env = Env::new(handler);
     env.lock_spins = rng.below(3) as u32;
@@ -323,8 +348,8 @@ async fn race(seed: u64, idx: u64, handler: HandlerKind) -> Result<CaseOut, Stri
             .await
             .map_err(|e| format!("setup append: {e}"))?;
     }
-    let n_writers = rng.urange(2, 3);
-    let with_reader = rng.chance(2, 3);
+    let n_writers = if c10 { 2 } else { rng.urange(2, 3) };
+    let with_reader = c10 || rng.chance(2, 3);
     let strat_kind = idx % 4;
     let mut procs = vec![];
     let mut wops = vec![];
@@ -338,7 +363,43 @@ async fn race(seed: u64, idx: u64, handler: HandlerKind) -> Result<CaseOut, Stri
             _ => WOp::Config(format!("w{w}"), format!("{}", rng.below(100))),
         };
         // faults on the create call of this writer
-        if rng.chance(2, 5) {
+        if c10 {
+            if rng.chance(4, 5) {
+                let fault = if rng.bool() { Fault::LostReply } else { Fault::FailBefore };
+                let crash = rng.chance(1, 3);
+                match rng.below(5) {
+                    0 | 1 => {
+                        let op = if rng.bool() { ExtOp::PutIfNotExists } else { ExtOp::PutIfExists };
+                        p.ext.as_ref().unwrap().set_faults(vec![ExtFault { op, nth: 1, fault, crash }]);
+                        fault_desc.push(format!("a{w}: ext.{}#1 {:?}{}", op.name(), fault, if crash { " +crash" } else { "" }));
+                    }
+                    _ if crash => {
+                        let k = rng.range(1, 6) as u64;
+                        p.actor.store.set_plan(FaultPlan {
+                            crash_at: Some((k, fault)),
+                            ..Default::default()
+                        });
+                        fault_desc.push(format!("a{w}: crash at mutating call #{k} {:?}", fault));
+                    }
+                    _ => {
+                        let (kind, name) = *rng.pick(&[
+                            (Kind::Put, "stage manifest (put)"),
+                            (Kind::Copy, "copy staging -> final"),
+                            (Kind::Delete, "delete staging"),
+                        ]);
+                        p.actor.store.set_plan(FaultPlan {
+                            on_match: vec![(kind, "_versions/".to_string(), fault)],
+                            ..Default::default()
+                        });
+                        fault_desc.push(format!("a{w}: {name} {:?}", fault));
+                    }
+                }
+            }
+            if rng.chance(1, 4) {
+                p.ext.as_ref().unwrap().set_stale_latest(1);
+                fault_desc.push(format!("a{w}: one stale get_latest_version"));
+            }
+        } else if rng.chance(2, 5) {
             let fault = if rng.bool() { Fault::LostReply } else { Fault::FailBefore };
             if handler == HandlerKind::External && rng.bool() {
                 let op = if rng.bool() { ExtOp::PutIfNotExists } else { ExtOp::PutIfExists };
@@ -371,16 +432,19 @@ async fn race(seed: u64, idx: u64, handler: HandlerKind) -> Result<CaseOut, Stri
         let params = p.actor.write_params(WriteMode::Append);
         handles.push(tokio::spawn(async move {
             let desc = op.describe();
-            let r = guarded(run_wop(op, ds, params), 50).await;
+            let r = guarded(run_wop(op, ds, params, c10), max_secs).await;
             s.end(id);
+            let (result, digest) = match r {
+                Ok(Ok((v, d))) => (Ok(v), d),
+                Ok(Err(e)) => (Err(e), None),
+                Err(GuardFail::Timeout) => (Err("TIMEOUT".into()), None),
+                Err(GuardFail::Panic(m)) => (Err(format!("PANIC {m}")), None),
+            };
             ClientResult {
                 actor: id,
                 op: desc,
-                result: match r {
-                    Ok(r) => r,
-                    Err(GuardFail::Timeout) => Err("TIMEOUT".into()),
-                    Err(GuardFail::Panic(m)) => Err(format!("PANIC {m}")),
-                },
+                result,
+                digest,
             }
         }));
     }
@@ -407,7 +471,7 @@ async fn race(seed: u64, idx: u64, handler: HandlerKind) -> Result<CaseOut, Stri
                     }
                 }
             };
-            let _ = guarded(fut, 50).await;
+            let _ = guarded(fut, max_secs).await;
             s.end(id);
         })
     });
@@ -422,7 +486,7 @@ async fn race(seed: u64, idx: u64, handler: HandlerKind) -> Result<CaseOut, Stri
         _ => Strategy::RoundRobin(0),
     };
     let strat_name = ["uniform", "pct", "actor_order", "round_robin"][strat_kind as usize];
-    let outcome = sched.run(strategy, std::time::Duration::from_secs(60)).await;
+    let outcome = sched.run(strategy, std::time::Duration::from_secs(max_secs + 10)).await;
     let mut clients = vec![];
     for h in handles {
         match h.await {
@@ -508,6 +572,11 @@ async fn race(seed: u64, idx: u64, handler: HandlerKind) -> Result<CaseOut, Stri
         watchdog: outcome.watchdog_fired,
         stats,
         sample,
+        wall_ms: t_start.elapsed().as_millis() as u64,
+        env: if c10 { Some(env) } else { None },
+        clients,
+        samples,
+        faults: fault_desc,
     })
 }
 
@@ -560,6 +629,7 @@ async fn stress_memory(report: &Report, handler: HandlerKind, tasks: usize, roun
                         Ok(Err(e)) => Err(e.to_string()),
                         Err(g) => Err(format!("{g:?}")),
                     },
+                    digest: None,
                 });
             }
             out
@@ -691,6 +761,7 @@ async fn stress_local(report: &Report, rename: bool, tasks: usize, rounds: usize
                         Ok(Err(e)) => Err(e.to_string()),
                         Err(g) => Err(format!("{g:?}")),
                     },
+                    digest: None,
                 });
             }
             out
@@ -789,7 +860,7 @@ fn stress_leg(report: &Report, args: &Args) {
         .enable_all()
         .build()
         .expect("runtime");
-    let rounds = args.tier.pick(6, 40);
+    let rounds = args.tier.pick(4, 40);
     let reps = args.tier.pick(1, 6);
     rt.block_on(async {
         for rep in 0..reps {
@@ -815,7 +886,7 @@ fn selftest(args: &Args) -> i32 {
         let mut runs = 0;
         let mut sigs = BTreeSet::new();
         for i in 0..60u64 {
-            match race(args.seed, i, HandlerKind::Unsafe).await {
+            match race(args.seed, i, HandlerKind::Unsafe, 60).await {
                 Ok(o) => {
                     runs += 1;
                     if !o.verdicts.is_empty() {
@@ -835,7 +906,7 @@ fn selftest(args: &Args) -> i32 {
         // 2. corrupted logs of a clean race
         let mut clean = None;
         for i in 0..40u64 {
-            if let Ok(o) = race(args.seed, 1000 + i, HandlerKind::CondPut).await {
+            if let Ok(o) = race(args.seed, 1000 + i, HandlerKind::CondPut, 60).await {
                 if o.verdicts.is_empty() && o.contended > 0 {
                     clean = Some(i);
                     break;
@@ -858,7 +929,7 @@ fn selftest(args: &Args) -> i32 {
             mut_index: Some(1),
         };
         let fh: BTreeMap<u64, u64> = [(2u64, 7u64)].into_iter().collect();
-        let ok1 = vec![ClientResult { actor: 1, op: "x".into(), result: Ok(2) }];
+        let ok1 = vec![ClientResult { actor: 1, op: "x".into(), result: Ok(2), digest: None }];
         let (v, _) = monitor(HandlerKind::CondPut, &[mk(0, 1, Kind::PutCreate, 7, true), mk(1, 2, Kind::PutCreate, 0, false)], &[], &ok1, &fh);
         if !v.is_empty() {
             fails.push(format!("clean synthetic log flagged: {v:?}"));
@@ -876,8 +947,8 @@ fn selftest(args: &Args) -> i32 {
             fails.push("changed content at quiescence not flagged".into());
         }
         let two_ok = vec![
-            ClientResult { actor: 1, op: "x".into(), result: Ok(2) },
-            ClientResult { actor: 2, op: "x".into(), result: Ok(2) },
+            ClientResult { actor: 1, op: "x".into(), result: Ok(2), digest: None },
+            ClientResult { actor: 2, op: "x".into(), result: Ok(2), digest: None },
         ];
         let (v, _) = monitor(HandlerKind::CondPut, &[mk(0, 1, Kind::PutCreate, 7, true)], &[], &two_ok, &fh);
         if v.is_empty() {
@@ -916,9 +987,9 @@ pub fn run(args: &Args) -> i32 {
          conditional put, rename, lock, external store. Non-trivial iff >= 2 writers issued their manifest create \
          (external: put_if_not_exists; lock: lock attempt) for the same version number; distinct = hash of the \
          normalised released call sequence + handler + fault plan. Plus an un-gated stress leg (12 tasks).",
-        (62, 900),
+        (50, 900),
     )
-    .with_min_nontrivial(50);
+    .with_min_nontrivial(20);
     report.assume("object_store InMemory / LocalFileSystem implement create-if-absent, rename-if-absent and copy atomically");
     report.assume("the lock and the external manifest store are linearizable harness mocks; a busy lock is reported as a commit conflict after 0-2 gated retries");
     report.assume("for the external-store handler a second copy of the *same* bytes onto an already finalised manifest path (two racing finalisers) is counted, not flagged: no reader can distinguish it");
@@ -938,9 +1009,10 @@ pub fn run(args: &Args) -> i32 {
         let next = &next;
         let per_handler = &per_handler;
         let per_strategy = &per_strategy;
-        let only_handler = only_handler.clone();
+        let only_handler = &only_handler;
         let seed = args.seed;
         Box::pin(async move {
+            let lane = || async {
             loop {
                 let idx = match single {
                     Some(c) => c,
@@ -950,19 +1022,26 @@ pub fn run(args: &Args) -> i32 {
                     break;
                 }
                 let mut handler = HandlerKind::SAFE[((idx / 4 + seed) % 4) as usize];
-                if let Some(h) = &only_handler {
+                if let Some(h) = only_handler {
                     if let Some(k) = HandlerKind::SAFE.iter().find(|k| k.name() == h) {
                         handler = *k;
                     }
                 }
-                match race(seed, idx, handler).await {
+                match race(seed, idx, handler, race_secs(report)).await {
                     Err(e) => report.harness_error(&format!("case {idx}: {e}")),
                     Ok(o) => {
                         if o.watchdog {
                             report.inconclusive(&format!("case {idx}: scheduler watchdog fired"));
                             report.count("watchdog_fired", 1);
                         }
+                        if o.clients.iter().any(|c| c.result.as_ref().err().map(|e| e == "TIMEOUT").unwrap_or(false)) {
+                            report.count("races_with_a_writer_cut_off_by_the_time_limit", 1);
+                        }
                         report.count("events", o.events as u64);
+                        report.count("race_wall_ms_total", o.wall_ms);
+                        if o.wall_ms > 10_000 {
+                            report.count("races_slower_than_10s", 1);
+                        }
                         report.count("released_calls", o.released as u64);
                         report.count("nondeterministic_steps", o.nondet);
                         report.count("contended_slots", o.contended as u64);
@@ -985,7 +1064,7 @@ pub fn run(args: &Args) -> i32 {
                         for v in &o.verdicts {
                             report.violation(&format!("{}:{}", v.sig, handler.name()), &v.what, o.witness.clone());
                         }
-                        if o.contended > 0 && report.want_sample() && idx % 7 == 0 {
+                        if o.contended > 0 && report.want_sample() && (idx % 7 == 0 || idx < 6) {
                             report.sample(o.sample.clone());
                         }
                         report.case(if o.contended > 0 { Some(o.ihash) } else { None });
@@ -995,6 +1074,10 @@ pub fn run(args: &Args) -> i32 {
                     break;
                 }
             }
+            };
+            // races mostly sleep (commit backoff): several concurrent lanes per worker thread
+            let lanes = if single.is_some() { 1 } else { 4 };
+            futures::future::join_all((0..lanes).map(|_| lane())).await;
         })
     });
     report.set(
